@@ -25,6 +25,7 @@ fn applicable(f: &Fam, g: &GShape) -> bool {
         "c01" => !g.rows.is_empty(),
         "c02" => b && !g.rows.is_empty(),
         "c03" => b && g.sane && g.rows.iter().any(|r| g.wits[r.w[0]].kind == 0),
+        "c04" => g.family == 0,
         "c06" => true,
         "c06_d" => g.ty.d && !g.rows.is_empty(),
         "c07" => b && g.liftable && !g.rows.is_empty(),
@@ -39,6 +40,7 @@ pub fn emit_wrappers(all: &[GShape], out_dir: &str) {
         Fam { prop: "c01", body: "c01", batch: 8, kind: "W", timeout: 1500, mem: 4 },
         Fam { prop: "c02", body: "c02", batch: 4, kind: "W", timeout: 1800, mem: 4 },
         Fam { prop: "c03", body: "c03", batch: 4, kind: "W", timeout: 1800, mem: 4 },
+        Fam { prop: "c04", body: "c04", batch: 40, kind: "V", timeout: 900, mem: 4 },
         Fam { prop: "c06", body: "c06", batch: 4, kind: "V", timeout: 1800, mem: 4 },
         Fam { prop: "c06", body: "c06_d", batch: 10, kind: "W", timeout: 1500, mem: 4 },
         Fam { prop: "c07", body: "c07", batch: 4, kind: "V", timeout: 1800, mem: 4 },
